@@ -578,12 +578,22 @@ func stepRequest(j job, step int) reqSpec {
 }
 
 // builds the record of one case
-func caseRecord(sc scenario, stream string, step int, ep *config.EndpointConfig, rq reqSpec, keep runResult, alone [][]sent, problems []string, reports []string, crash string) record {
+// the client's own maps (with their value slices) hold something else than before the request
+func (r runResult) mutated(rq reqSpec) bool {
+	return emit.MultiMap(r.afterHdr) != emit.MultiMap(rq.hdr) || emit.MultiMap(r.afterQry) != emit.MultiMap(rq.qry) || emit.StrMap(r.afterPar) != emit.StrMap(rq.par)
+}
+
+// writers: the backends whose pipeline, run alone, writes into the client's own maps / value
+// slices.  In a fan-out of several backends such a write goes to state the sibling pipelines
+// read without any synchronisation: an observed conflicting access, whether or not the
+// sibling happened to see the other value in this run.
+func caseRecord(sc scenario, stream string, step int, ep *config.EndpointConfig, rq reqSpec, keep runResult, alone [][]sent, writers []int, problems []string, reports []string, crash string) record {
 	n := len(ep.Backend)
 	if keep.timedOut || keep.panicked != "" {
 		problems = append(problems, fmt.Sprintf("fan-out: timeout=%v panic=%q", keep.timedOut, keep.panicked))
 	}
-	race := len(reports) > 0 || strings.Contains(crash, "concurrent map") || strings.Contains(crash, "DATA RACE")
+	sharedWrite := len(ep.Backend) > 1 && len(writers) > 0 && keep.sent != nil && keep.afterHdr != nil && keep.mutated(rq)
+	race := len(reports) > 0 || strings.Contains(crash, "concurrent map") || strings.Contains(crash, "DATA RACE") || sharedWrite
 	var bl, ol []string
 	var bj, oj []interface{}
 	for k, be := range ep.Backend {
@@ -623,6 +633,9 @@ func caseRecord(sc scenario, stream string, step int, ep *config.EndpointConfig,
 	}
 	if crash != "" {
 		js["process_crashed_while_running_this_scenario"] = crash
+	}
+	if sharedWrite {
+		js["write_into_client_maps_shared_with_siblings_by_backends"] = writers
 	}
 	counts := []string{"stream:" + stream, fmt.Sprintf("backends:%d", n), fmt.Sprintf("cc:%d", ep.Backend[0].ConcurrentCalls)}
 	if unsafeMethod(ep) {
@@ -675,6 +688,9 @@ func worker(cfg out.Config, raceMode bool, from, to, upto int, outPath string) {
 	if raceMode && cfg.Thorough() {
 		reps = 10
 	}
+	if cfg.Only >= 0 {
+		reps = 400 // replay of one scenario: a leak that depends on which sibling runs first gets many tries
+	}
 	raceReports := 0
 	freshReports := func() []string {
 		if !raceMode {
@@ -685,9 +701,10 @@ func worker(cfg out.Config, raceMode bool, from, to, upto int, outPath string) {
 		return reports
 	}
 	// alone: each backend as the only backend of a FRESH endpoint (the code is deterministic there)
-	observeAlone := func(sc scenario, n int, rq reqSpec) ([][]sent, []string) {
+	observeAlone := func(sc scenario, n int, rq reqSpec) ([][]sent, []int, []string) {
 		alone := make([][]sent, n)
 		var problems []string
+		var writers []int
 		for k := 0; k < n; k++ {
 			epk, err := buildEndpoint(sc, k)
 			if err != nil {
@@ -698,9 +715,11 @@ func worker(cfg out.Config, raceMode bool, from, to, upto int, outPath string) {
 			alone[k] = rr.sent[0]
 			if rr.timedOut || rr.panicked != "" {
 				problems = append(problems, fmt.Sprintf("solo %d: timeout=%v panic=%q", k, rr.timedOut, rr.panicked))
+			} else if epk.Backend[0].ConcurrentCalls <= 1 && rr.mutated(rq) {
+				writers = append(writers, k)
 			}
 		}
-		return alone, problems
+		return alone, writers, problems
 	}
 	differs := func(rr runResult, alone [][]sent) bool {
 		for k := range alone {
@@ -724,7 +743,7 @@ func worker(cfg out.Config, raceMode bool, from, to, upto int, outPath string) {
 		switch j.kind {
 		case "fresh": // one fresh instance per request
 			rq := inScope(ep, sc.req)
-			alone, problems := observeAlone(sc, len(ep.Backend), rq)
+			alone, writers, problems := observeAlone(sc, len(ep.Backend), rq)
 			// fan-out, repeated; keep the first run in which some backend was sent something
 			// else than alone (else the first)
 			var keep *runResult
@@ -739,7 +758,7 @@ func worker(cfg out.Config, raceMode bool, from, to, upto int, outPath string) {
 					break
 				}
 			}
-			emitRec(caseRecord(sc, "fresh", 0, ep, rq, *keep, alone, problems, freshReports(), ""))
+			emitRec(caseRecord(sc, "fresh", 0, ep, rq, *keep, alone, writers, problems, freshReports(), ""))
 		case "seq": // sequential reuse: ONE instance serves the whole sequence, every step is a case
 			inst := newInstance(ep)
 			for i, rq0 := range sc.seq {
@@ -748,8 +767,8 @@ func worker(cfg out.Config, raceMode bool, from, to, upto int, outPath string) {
 				}
 				rq := inScope(ep, rq0)
 				rr := inst.call(rq, true)
-				alone, problems := observeAlone(sc, len(ep.Backend), rq)
-				emitRec(caseRecord(sc, "reuse-seq", i, ep, rq, rr, alone, problems, freshReports(), ""))
+				alone, writers, problems := observeAlone(sc, len(ep.Backend), rq)
+				emitRec(caseRecord(sc, "reuse-seq", i, ep, rq, rr, alone, writers, problems, freshReports(), ""))
 			}
 		case "conc":
 			// concurrent reuse: ONE instance hit by many goroutines released together, a few
@@ -759,9 +778,10 @@ func worker(cfg out.Config, raceMode bool, from, to, upto int, outPath string) {
 			inputs := make([]reqSpec, L)
 			alone := make([][][]sent, L)
 			probs := make([][]string, L)
+			wrs := make([][]int, L)
 			for i, rq0 := range sc.seq {
 				inputs[i] = inScope(ep, rq0)
-				alone[i], probs[i] = observeAlone(sc, len(ep.Backend), inputs[i])
+				alone[i], wrs[i], probs[i] = observeAlone(sc, len(ep.Backend), inputs[i])
 			}
 			freshReports() // reports so far belong to the solo runs above (none expected)
 			inst := newInstance(ep)
@@ -801,7 +821,7 @@ func worker(cfg out.Config, raceMode bool, from, to, upto int, outPath string) {
 			sort.Strings(keys)
 			for _, k := range keys {
 				o := seen[k]
-				emitRec(caseRecord(sc, "reuse-conc", o.in, ep, inputs[o.in], o.rr, alone[o.in], probs[o.in], reports, ""))
+				emitRec(caseRecord(sc, "reuse-conc", o.in, ep, inputs[o.in], o.rr, alone[o.in], wrs[o.in], probs[o.in], reports, ""))
 			}
 		}
 		put(record{Job: ji, Kind: "done", Reports: raceReports})
@@ -922,7 +942,7 @@ func main() {
 			if k > 0 && j.kind == "seq" {
 				text = "step not run: the process died at an earlier step of this sequence\n" + crash
 			}
-			apply(caseRecord(j.sc, stream, step, ep, rq, runResult{sent: make([][]sent, len(ep.Backend))}, make([][]sent, len(ep.Backend)),
+			apply(caseRecord(j.sc, stream, step, ep, rq, runResult{sent: make([][]sent, len(ep.Backend))}, make([][]sent, len(ep.Backend)), nil,
 				[]string{"the process running this scenario died"}, nil, text))
 		}
 	}
